@@ -220,6 +220,21 @@ CHECKS = [
                 "race needing one specific cross-process interleaving may be missed); engine-B time-outs are "
                 "inconclusive, never violations; starts from inside a synchronized call are excluded as documented.",
     },
+    {
+        "property_id": "C18",
+        "technique": "model-based differential testing of generated redraw histories: long-lived screen + terminal model vs a fresh screen drawing the same canvas into a fresh model",
+        "text": "Generated histories of layout edits over urwid trees holding kitty/iterm2/block image widgets (insert, "
+                "remove, swap, resize, scroll, overlay cover/uncover, retarget, widget creation/deletion+gc, clear, "
+                "stop/start, explicit clear_images, wrong-size draws, bare non-composite tops) on kitty/konsole/wezterm/"
+                "unknown identities; after each redraw the graphics-placement map and text cells of the long-lived "
+                "terminal model must equal those of a fresh screen drawing the same canvas from scratch; every redraw "
+                "is exactly one synchronized-update bracket with no cut control sequence; no placements after "
+                "start/stop/clear; kitty z-indexes distinct and in range; the allocator is checked against a model of "
+                "its documented sequence incl. exhaustion and recycling.",
+        "note": "Trusts vf.vt (kitty placements persist until deleted; konsole treats iTerm2 images as placements), "
+                "urwid 2.6.16 and its canvas cache; after an explicit clear_images() only left-over images are judged "
+                "until the next full repaint (missing ones are unspecified); clear_images(now=True) not covered.",
+    },
 ]
 
 NOT_APPLICABLE = [
